@@ -531,6 +531,7 @@ theorem gen_source_setupPin : Gen.setupPin = Expected.setupPin := rfl
 theorem gen_source_pinInternal : Gen.pinInternal = Expected.pinInternal := rfl
 theorem gen_source_unpin : Gen.unpin = Expected.unpin := rfl
 theorem gen_source_unpinClusterDag : Gen.unpinClusterDag = Expected.unpinClusterDag := rfl
+theorem gen_source_cidsFromMetaPin : Gen.cidsFromMetaPin = Expected.cidsFromMetaPin := rfl
 theorem gen_source_pinUpdate : Gen.pinUpdate = Expected.pinUpdate := rfl
 theorem gen_source_pinPath : Gen.pinPath = Expected.pinPath := rfl
 theorem gen_source_unpinPath : Gen.unpinPath = Expected.unpinPath := rfl
